@@ -269,3 +269,50 @@ func VH_C03_bytes_snake(n int, pre int) {
 	zzvrt.Cover("split", 8*n > avail)
 	zzvrt.ObserveInt("len", len(got))
 }
+
+// VM stacks (vm_stack#_ depth:(## 24) stack:(VmStackList depth); vm_stk_cons rest:^(VmStackList n)
+// tos:VmStackValue): the API's list convention is "arguments listed top-first, results bottom-first".
+// Marshal of {a, b, c} puts a in the outermost cell (top of stack) with b, c below it in the chain of
+// `rest` references; Unmarshal of that cell lists the entries bottom-first: {c, b, a}.  Entries are
+// tiny ints with symbolic values; the layout of each cell is compared with the schema.
+func VH_C03_vmstack(n int) {
+	var s VmStack
+	vals := make([]int64, n)
+	for i := 0; i < n; i++ {
+		vals[i] = zzvrt.NondetI64("v")
+		s = append(s, VmStackValue{SumType: "VmStkTinyInt", VmStkTinyInt: vals[i]})
+	}
+	c := boc.NewCell()
+	zzvrt.Assert("encode-ok", Marshal(c, s) == nil)
+	cur := c
+	for i := 0; i < n; i++ {
+		spec := &vSpecBits{}
+		if i == 0 {
+			spec.uint(uint64(n), 24)
+		}
+		spec.uint(1, 8) // vm_stk_tinyint#01
+		spec.uint(uint64(vals[i]), 64)
+		vAssertCellIs(cur, spec, "cons-cell")
+		zzvrt.Assert("rest-reference", cur.RefsSize() == 1)
+		if cur.RefsSize() != 1 {
+			return
+		}
+		cur = cur.Refs()[0]
+	}
+	if n == 0 {
+		spec := &vSpecBits{}
+		spec.uint(0, 24)
+		vAssertCellIs(c, spec, "empty-stack")
+	} else {
+		zzvrt.Assert("nil-cell-is-empty", cur.BitSize() == 0 && cur.RefsSize() == 0)
+	}
+	var got VmStack
+	c.ResetCounters()
+	zzvrt.Assert("decode-ok", Unmarshal(c, &got) == nil)
+	zzvrt.Assert("same-depth", len(got) == n)
+	for i := 0; i < n && i < len(got); i++ {
+		zzvrt.Assert("results-bottom-first", got[i].SumType == "VmStkTinyInt" && got[i].VmStkTinyInt == vals[n-1-i])
+	}
+	zzvrt.Cover("reached", true)
+	zzvrt.ObserveInt("depth", len(got))
+}
